@@ -310,17 +310,26 @@ def coq_gate(prop_id, full=False):
             res["ok"] = False
             res["errors"].append("gen_consts failed (a source constant the model depends on is missing or "
                                  "unrecognised): " + (g.stdout + g.stderr)[-800:])
+        consts_changed = "gen_consts: CHANGED" in g.stdout
         if not os.path.exists(os.path.join(COQ_DIR, "Makefile")) or full:
             subprocess.run(["coq_makefile", "-f", "_CoqProject", "-o", "Makefile"], cwd=COQ_DIR,
                            capture_output=True)
         if full:
             subprocess.run(["make", "clean"], cwd=COQ_DIR, capture_output=True)
-        m = subprocess.run(["timeout", "3000", "make", "-j12"], cwd=COQ_DIR, capture_output=True, text=True)
+        # build the dependency cone of this property's statement file (all of it when the regenerated
+        # constants changed: the extracted model must then be rebuilt as well)
+        target = ["theories/Props/%s.vo" % prop_id] if not (full or consts_changed) else []
+        m = subprocess.run(["timeout", "3000", "make", "-j12"] + target, cwd=COQ_DIR, capture_output=True, text=True)
         if m.returncode != 0:
             res["ok"] = False
             err = (m.stdout + m.stderr)
             idx = err.find("Error")
             res["errors"].append("coq build failed: " + err[max(0, idx - 600): idx + 1200])
+        elif consts_changed:
+            b = subprocess.run(["bash", os.path.join(VERIF, "ocaml", "build.sh")], capture_output=True, text=True)
+            if b.returncode != 0:
+                res["ok"] = False
+                res["errors"].append("re-extraction after a constant change failed: " + (b.stdout + b.stderr)[-800:])
         pf = os.path.join(COQ_DIR, "theories", "Props", f"{prop_id}.v")
         if os.path.exists(pf) and m.returncode == 0:
             txt = strip_coq_comments(open(pf).read())
